@@ -150,7 +150,9 @@ def rule_taint(ctx):
            'NRT re-scheduling must be scheduled time (in beats) + delta converted back with the same clock', f.node, f.module)
     src = full(f.node)
     ctx.ob('C05.taint', f'{f.fq}:unit-conversion',
-           f'beats = self.clock.secs2beats({tparam})' in src and 'self.clock.beats2secs(beats + delta)' in src,
+           f'beats = self.clock.secs2beats({tparam})' in src and (
+               'self.clock.beats2secs(beats + delta)' in src or
+               U.before(src, 'self.beats = beats + delta', 'self.scheduler.add(self.clock.beats2secs(self.beats), self)')),
            'delta is added in the clock unit (beats) and converted back to seconds', f.node, f.module)
     g = repo.func('sc3.base.clock:ClockScheduler.run')
     src = full(g.node)
@@ -368,7 +370,7 @@ MUTANTS = [
          old="            for time, item in self._expired:\n                self._seconds = time\n",
          new="            for time, item in self._expired:\n                self._seconds = value\n"),
     dict(rule='C05.taint', name='NRT wakeup adds delta to seconds', file='sc3/base/clock.py',
-         old="self.scheduler.add(self.clock.beats2secs(beats + delta), self)", new="self.scheduler.add(_libsc3.main.current_tt._seconds + delta, self)"),
+         old="self.scheduler.add(self.clock.beats2secs(self.beats), self)", new="self.scheduler.add(_libsc3.main.current_tt._seconds + delta, self)"),
     dict(rule='C05.src', name='new physical-time reader', file='sc3/base/clock.py',
          old="    def _calc_sched_beats(self, delta):\n        seconds = _libsc3.main.current_tt._seconds",
          new="    def _calc_sched_beats(self, delta):\n        seconds = _libsc3.main.elapsed_time()"),
